@@ -3,7 +3,7 @@ from .. import mgen
 
 ID = "C07"
 LEVEL = "exploration"
-RUNS = {"quick": 1500, "thorough": 50000}
+RUNS = {"quick": 5000, "thorough": 50000}
 RUN_ALARM = 900
 RULE = ("seeded task histories for nOS-V and/or Nanos6 processes with 1-4 threads: task types (jumbo), normal and parallel tasks, bodies "
         "executed, paused, resumed, ended, nested over paused (or, Nanos6, running) bodies, migrated between threads, resurrected, while "
